@@ -20,6 +20,7 @@ import (
 	"fmt"
 	"io"
 	"math/big"
+	"runtime"
 	"sort"
 	"strings"
 	"sync"
@@ -121,7 +122,7 @@ func SignCheque(ben, rcp common.Address, cum *big.Int, signer int) (*chequePkg.S
 type Parked struct {
 	Key   string
 	Value string // fmt.Sprint of the value at the time of the call (the *big.Int read by the caller)
-	Tag   string // goroutine tag given by the harness (see GateStore.Tag)
+	Tag   string // id of the goroutine that called Put
 	rel   chan error
 }
 
@@ -158,7 +159,7 @@ func (g *GateStore) Put(key string, i interface{}) error {
 		g.mu.Unlock()
 		return g.StateStorer.Put(key, i)
 	}
-	pk := &Parked{Key: key, Value: fmt.Sprint(i), rel: make(chan error, 1)}
+	pk := &Parked{Key: key, Value: fmt.Sprint(i), Tag: goroutineID(), rel: make(chan error, 1)}
 	g.parked = append(g.parked, pk)
 	g.mu.Unlock()
 	select {
@@ -169,6 +170,17 @@ func (g *GateStore) Put(key string, i interface{}) error {
 		return err
 	}
 	return g.StateStorer.Put(key, i)
+}
+
+// goroutineID returns the id of the calling goroutine (from its stack header).
+func goroutineID() string {
+	b := make([]byte, 64)
+	b = b[:runtime.Stack(b, false)]
+	f := strings.Fields(string(b))
+	if len(f) >= 2 {
+		return f[1]
+	}
+	return "?"
 }
 
 // Events is signalled whenever a Put parks.
